@@ -35,6 +35,9 @@ add('C14', 'recorders on the public WMA wrappers; definedness online, consistenc
 add('C15', 'recorders on wma_age_factor / wma_world_best; envelope oracle from the table\'s own distance column, open-best monotonicity monitor along the distance axis',
     'Whole-metre distances 20 m..400 km (all up to 30 km and every 37th beyond in quick; all in thorough) plus +-5 m around every tabulated distance and road spellings N[.dd]K / N[.dd]M, x gender x year x ages; every observed call judged against the bracketing rows.',
     'All rows tying for nearest shorter / longer contribute to the envelope, so neither reading of the track/road seam is imposed.', 'C15')
+add('C12', 'recorder on the real check_performance_for_discipline with a custom error class; format/plausibility oracle per event kind, idempotence by a second real call',
+    'Customary codes, loose names and codes sampled from every family pattern x an entry-text grammar (hand-written boundary entries plus seeded 1-3 field texts) x gender x precision option; every observed call judged for exception class, result format, speed / record plausibility and idempotence.',
+    'Sanity limits are the documented ones (11 / 10 / 0.5 m/s, 120 % of record); refusing with the supplied class is always allowed.', 'C12')
 _all = ['C%02d' % i for i in range(1, 20)]
 for p in _all:
     if p not in CHECKS:
